@@ -284,7 +284,7 @@ func c02(ctx *core.Ctx) {
 			continue
 		}
 		router := routerOf(ti)
-		if m := ti % 40; m >= 7 && m <= 11 {
+		if m := ti % 40; m >= 7 && m <= 13 {
 			router = routerOf(ti / 40) // the special table shapes below take turns on both routers
 		}
 		r := ctx.Rand(ti, "table")
@@ -331,7 +331,37 @@ func c02(ctx *core.Ctx) {
 		bo := rt.DefaultBuild(router)
 		bo.Switched = ti%8 == 2 || ti%8 == 5
 		bo.Default = ti == 0
-		c := rt.Build(t, bo)
+		bo.Dynamic = ti%40 == 12 || ti%40 == 13
+		c, wss := rt.BuildWS(t, bo)
+		if bo.Dynamic {
+			// the route table was arrived at by RemoveRoute on registered WebServices: further representations of an
+			// existing route are registered next to each other, then that resource (method, path) is removed again
+			er := ctx.Rand(ti, "edit")
+			for round := 0; round < 3; round++ {
+				si := er.Intn(len(t.Svcs))
+				svc := &t.Svcs[si]
+				if len(svc.Routes) == 0 || wss[si] == nil {
+					continue
+				}
+				victim := svc.Routes[er.Intn(len(svc.Routes))]
+				copies := er.Intn(4) // 0..3 further routes with the victim's method and path
+				for k := 0; k < copies; k++ {
+					nr := victim
+					nr.ID = 9000 + 10*round + k
+					nr.Produces = []string{er.Pick(rt.Medias)}
+					nr.ViaSvc = false
+					svc.Routes = append(svc.Routes, nr)
+					rt.AddRoute(wss[si], &svc.Routes[len(svc.Routes)-1], bo)
+				}
+				gone, err := rt.RemoveRoutesLike(wss[si], svc, victim.ID)
+				ctx.Count("routes_removed_by_RemoveRoute", len(gone))
+				ctx.Max("max_routes_removed_by_one_RemoveRoute", len(gone))
+				if err != nil {
+					ctx.Violation(ti, "c02:removeroute-error", "RemoveRoute returned "+err.Error(), caseDoc{Router: router, Table: t})
+				}
+			}
+			ctx.Count("tables_edited_with_RemoveRoute", 1)
+		}
 		rr := ctx.Rand(ti, "req")
 		var reqs []rt.Req
 		for qi := 0; qi < perTable; qi++ {
